@@ -31,7 +31,7 @@ def examples(tier):
 def strategy_(draw, tier):
     n = draw(st.integers(1, 5))
     return {"cmd": draw(st.sampled_from(CMDS)),
-            "ents": [dict(kind=draw(st.sampled_from(["file", "file", "tree", "tree", "link", "empty"])),
+            "ents": [dict(kind=draw(st.sampled_from(["file", "file", "tree", "tree", "link", "empty", "fifo"])),
                           where=draw(st.sampled_from(["home", "home", "top_alt", "top_sticky"])),
                           old=draw(st.booleans()),
                           # same base name as the first entry, trashed from another directory: the
